@@ -147,6 +147,13 @@ def assumed(props=()):
     return deco
 
 
+def was(old, obj):
+    """The pre-state version of heap object `obj` (for fields of objects reached through lists):  was(old, v).fixes.
+    Natively: the deep copy made at entry (the replay harness records the copy of every reachable object)."""
+    memo = getattr(old, "_memo", None)
+    return memo.get(id(obj), obj) if memo is not None else obj
+
+
 def implies(a, b):
     return (not a) or b
 
@@ -212,3 +219,16 @@ def register_fold(list_ty, upto_spec, prefix_lemma, concat_lemma=None):
         concat_lemma(a, b, r, k):     r == a ++ b (elementwise) and 0 <= k <= len(b) =>  upto(r, len(a) + k) == upto(a, len(a)) (+) upto(b, k)
     """
     FOLDS.setdefault(list_ty.key, []).append((upto_spec, prefix_lemma, concat_lemma))
+
+
+DICT_CLASSES: set = set()
+
+
+def dict_class(name, **fields):
+    """A plain `dict` with constant string keys that is MUTATED in place and shared by reference (e.g. the serialised
+    violation records): modelled as a heap object whose fields are the keys.  A key that may be absent has an
+    Optional type (None = absent)."""
+    from . import ty as T
+    T.declare_fields(name, **fields)
+    DICT_CLASSES.add(name)
+    return T.TRef(name)
